@@ -15,6 +15,7 @@ import (
 	"go.opentelemetry.io/collector/connector/forwardconnector"
 	"go.opentelemetry.io/collector/connector/xconnector"
 	"go.opentelemetry.io/collector/consumer"
+	"go.opentelemetry.io/collector/consumer/consumererror"
 	"go.opentelemetry.io/collector/consumer/xconsumer"
 	"go.opentelemetry.io/collector/exporter"
 	"go.opentelemetry.io/collector/exporter/xexporter"
@@ -181,6 +182,24 @@ func (w *World) Deliveries() []delivery {
 
 var errStubStart = errors.New("stub: start failed")
 var errStubShutdown = errors.New("stub: shutdown failed")
+
+// stubErrFlavour (drawn per run by genTopo): what else a failing stub's error wraps - nothing; a deadline error of
+// the component's own (an internal bounded flush that ran out of time); a cancellation of its own; a permanent
+// consumer error. What kind of error a component fails with must not change how the service treats the others.
+var stubErrFlavour int
+
+func flavoured(err error) error {
+	switch stubErrFlavour {
+	case 1:
+		return fmt.Errorf("%w: internal flush: %w", err, context.DeadlineExceeded)
+	case 2:
+		return fmt.Errorf("%w: internal worker: %w", err, context.Canceled)
+	case 3:
+		return consumererror.NewPermanent(err)
+	}
+	return err
+}
+
 var errStubConsume = errors.New("stub: consume failed")
 
 // stubBase implements Start/Shutdown with logging, failing and parking.
@@ -234,7 +253,7 @@ func (b *stubBase) Start(_ context.Context, host component.Host) error {
 	}
 	if p.FailStart || b.w.failsAt(b.gen, b.k()) {
 		b.w.emit("start-fail", b.k(), b.gen, "")
-		return fmt.Errorf("%s: %w", b.k(), errStubStart)
+		return flavoured(fmt.Errorf("%s: %w", b.k(), errStubStart))
 	}
 	b.live = true
 	b.w.emit("started", b.k(), b.gen, "")
@@ -268,7 +287,7 @@ func (b *stubBase) Shutdown(ctx context.Context) error {
 			// the drain was cut short by the caller's context: the failure carries that context's error
 			return fmt.Errorf("%s: %w: %w", b.k(), errStubShutdown, ctx.Err())
 		}
-		return fmt.Errorf("%s: %w", b.k(), errStubShutdown)
+		return flavoured(fmt.Errorf("%s: %w", b.k(), errStubShutdown))
 	}
 	b.w.emit("stopped", b.k(), b.gen, "")
 	return nil
